@@ -443,6 +443,48 @@ pub fn record(seed: u64, n: usize, out_path: &str, paths: &[String]) {
             Ok(evs) => evs.iter().for_each(|e| out.line(e)),
             Err(m) => out.line(&json!({"ev": "panic", "in": "models", "msg": m})),
         }
+        // wiring: what the engine generates from a voice SET under independently chosen weights is what the public pipeline
+        // (Models -> DurationEstimator -> MlpgAdjust per stream) gives for the same weights and condition.  Half of the time the
+        // duration and all parameter weights sit on one common vertex while the GV weights are drawn freely.
+        if it % 3 == 1 {
+            let same_vertex = rng.chance(0.5);
+            let which = rng.below(nv);
+            let r = guarded(|| -> Result<bool, String> {
+                let mut e = Engine::load(&idx.iter().map(|i| paths[*i].clone()).collect::<Vec<_>>()).map_err(|e| e.to_string())?;
+                crate::eng::random_condition(&mut e, &mut rng, false);
+                let mut vert = vec![0.0; nv];
+                vert[which] = 1.0;
+                {
+                    let w = e.condition.get_interporation_weight_mut();
+                    w.set_duration(&if same_vertex { vert.clone() } else { f(&kd) }).map_err(|e| e.to_string())?;
+                    for s in 0..ns {
+                        w.set_parameter(s, &if same_vertex { vert.clone() } else { f(&kp[s]) }).map_err(|e| e.to_string())?;
+                        w.set_gv(s, &f(&kg[s])).map_err(|e| e.to_string())?;
+                    }
+                }
+                let g = e.generator(labels.clone()).map_err(|e| e.to_string())?;
+                let (sp, lf0, lpf) = g.verif_trajectories();
+                let hooked = [sp.to_vec(), lf0.to_vec(), lpf.to_vec()];
+                let c = &e.condition;
+                let m = Models::new(&labels, &e.voices, c.get_interporation_weight());
+                let dur = jbonsai::duration::DurationEstimator::new(m.duration(), m.nstate()).create(c.get_speed());
+                let mut equal = true;
+                for s in 0..ns {
+                    let mut ms = m.model_stream(s);
+                    if s == 1 {
+                        ms.stream.apply_additional_half_tone(c.get_additional_half_tone());
+                    }
+                    let t = jbonsai::mlpg_adjust::MlpgAdjust::new(c.get_gv_weight(s), c.get_msd_threshold(s), ms).create(&dur);
+                    equal &= t.len() == hooked[s].len() && t.iter().zip(&hooked[s]).all(|(a, b)| a.len() == b.len() && a.iter().zip(b).all(|(x, y)| x.to_bits() == y.to_bits()));
+                }
+                Ok(equal)
+            });
+            match r {
+                Ok(Ok(eq)) => out.line(&json!({"ev": "wiring", "equal": eq, "same_vertex": same_vertex, "nvoices": nv})),
+                Ok(Err(e)) => out.line(&json!({"ev": "error", "msg": e})),
+                Err(m) => out.line(&json!({"ev": "panic", "in": "wiring", "msg": m})),
+            }
+        }
         // vertex weights reproduce the single voice's waveform exactly (every 4th iteration; synthesis is slow)
         if it % 4 == 0 {
             let which = rng.below(nv);
